@@ -401,4 +401,25 @@ func c02SuccessionFirst(c *Ctx, rule string) {
 	if n < 2 {
 		c.und(rule, "statebackend Store closures", "", fmt.Sprintf("only %d Store closures found", n))
 	}
+	// what the succession check establishes: success ⇒ number == head+1 (0 on an empty chain) ∧ parent hash == head hash
+	if f := p.Func("blockchain/statebackend", "", "verifyBlockSuccession"); f != nil {
+		k := 0
+		for _, ret := range returnsOf(f) {
+			if !isNilConst(ret.Results[0]) {
+				continue
+			}
+			k++
+			d := p.mustHoldAt(ret.Ret)
+			okNum, m1 := everyDisjunctHas(d, []string{"^!", "#0 + 1) | 0) != block.Header.Number)"}, []string{"#0 + 1) | 0) == block.Header.Number)"},
+				[]string{"^!", "block.Header.Number != φ(", "#0 + 1) | 0)"}, []string{"block.Header.Number == φ(", "#0 + 1) | 0)"})
+			okPar, m2 := everyDisjunctHas(d, []string{"block.Header.ParentHash.Equal("}, []string{".Equal(block.Header.ParentHash)"})
+			c.check(okNum && okPar, rule, "verifyBlockSuccession accepts", p.Pos(posOf(ret.Ret, f)), "only a block numbered head+1 (0 on an empty chain) whose parent hash is the head's hash",
+				"a block that does not extend the head can pass the succession check (a stale or forged lower-numbered block is then judged by parent hash only — the syncer takes the mismatch for a reorg and reverts canonical blocks, or the block is stored below the head): "+m1+" "+m2)
+		}
+		if k == 0 {
+			c.und(rule, "verifyBlockSuccession", p.Pos(fnPos(f)), "no success return found")
+		}
+	} else {
+		c.und(rule, "verifyBlockSuccession", "", "anchor not found")
+	}
 }
